@@ -1322,7 +1322,24 @@ class VM:
                 "toString",
             ]
             if key_str in string_methods:
-                return self._make_string_method(obj, key_str)
+                # The method acts on the value it is *called on*: obj for
+                # str.m(...), the explicit receiver for m.call(other, ...)
+                vm = self
+
+                def string_method(this_val, *args, _name=key_str):
+                    if this_val is UNDEFINED or this_val is NULL:
+                        raise JSTypeError(
+                            f"String.prototype.{_name} called on null or undefined"
+                        )
+                    if not isinstance(this_val, str):
+                        if _name == "toString":
+                            raise JSTypeError(
+                                "String.prototype.toString requires that 'this' be a String"
+                            )
+                        this_val = to_string(vm._to_primitive(this_val, "string"))
+                    return vm._make_string_method(this_val, _name)(*args)
+
+                return JSBoundMethod(string_method)
             return UNDEFINED
 
         if isinstance(obj, (int, float)):
